@@ -283,3 +283,27 @@ def intervals_intersect(a, b):
         else:
             return True
     return False
+
+
+def layout_injective(regs, pfx, h, w, d):
+    """The strides programmed for feature map `pfx` map the elements of a box of h x w x d (rows within one tile) to pairwise
+    different bytes.  Sufficient test for a linear layout: with the dimensions sorted by stride, every stride is at least the
+    extent the faster dimensions span.  (Every layout Vela programs satisfies it: NHWC, NHCWB16 and the transposed strides.)"""
+    prec = r(regs, "NPU_SET_%s_PRECISION" % pfx)
+    es = ELEM[(prec >> 1) & 3] if pfx == "OFM" else ELEM[(prec >> 2) & 3]
+    b16 = (prec >> 6) & 1
+    h0 = r(regs, "NPU_SET_%s_HEIGHT0_M1" % pfx) + 1
+    sy = r(regs, "NPU_SET_%s_STRIDE_Y" % pfx)
+    sx = r(regs, "NPU_SET_%s_STRIDE_X" % pfx)
+    sc = r(regs, "NPU_SET_%s_STRIDE_C" % pfx)
+    rows = min(h, h0)                     # rows addressed with one base pointer
+    if b16:
+        dims = [(min(d, 16), es), (w, 16 * es), ((d + 15) // 16, sc), (rows, sy)]
+    else:
+        dims = [(d, es), (w, sx), (rows, sy)]
+    span = es                              # bytes one element of the faster dimensions occupies
+    for n, st in sorted((x for x in dims if x[0] > 1), key=lambda t: t[1]):
+        if st < span:
+            return False
+        span = (n - 1) * st + span
+    return True
